@@ -1,1 +1,1105 @@
-// stub
+//! cw4-stake family: C10 (stakes fully backed, weight follows stake, exit only after
+//! the unbonding delay). Chain driver: a cw-multi-test `App` with the real bank module,
+//! a real cw20-base instance as stake token (cw20 arm), a second cw20-base instance as
+//! the "foreign" token, and the real cw4-stake contract. Every call is a transaction:
+//! it runs under `catch_unwind`; the App only commits on success, so an error or a
+//! panic (division by `tokens_per_weight = 0`, `Uint128` overflow ..) leaves no state.
+//!
+//! Env switch `VERIF_C10_NO_WRAP=1` (default off, development aid only): Bond amounts
+//! are clamped while being resolved so that no stake ever reaches a quotient
+//! `stake / tokens_per_weight >= 2^64`. It exists to show that everything except the
+//! known defect F2 (`calc_weight` casts the quotient with `as u64`) is silent on a
+//! tree that still has F2. It is never set by the registered commands.
+use cosmwasm_std::{coin, to_json_binary, Addr, BlockInfo, Coin, Empty, Uint128, Uint256};
+use cw20::{BalanceResponse, Cw20Coin, Cw20ExecuteMsg, Cw20QueryMsg, Cw20ReceiveMsg, Denom};
+use cw4::{MemberListResponse, MemberResponse, TotalWeightResponse};
+use cw4_stake::msg::{ClaimsResponse, ExecuteMsg, InstantiateMsg, QueryMsg, ReceiveMsg, StakedResponse};
+use cw_multi_test::{App, Contract, ContractWrapper, Executor};
+use cw_utils::{Duration, Expiration};
+use proptest::prelude::*;
+use serde::{Deserialize, Deserializer, Serialize, Serializer};
+use std::collections::BTreeMap;
+use std::panic::{catch_unwind, AssertUnwindSafe};
+use std::sync::OnceLock;
+use vcore::amounts::{edge_u128, mostly_small_u128};
+use vcore::{CaseCtx, Family, PropSpec, Tier, Violation};
+
+pub const N_USERS: usize = 3;
+pub const DENOM: &str = "ustake";
+pub const OTHER_DENOM: &str = "uother";
+/// every user holds this much of each token that is *not* the stake token
+pub const SIDE_FUNDS: u128 = 1_000_000;
+pub const MAX_FUNDS: u128 = 1u128 << 127;
+
+/// u128 that serialises as a decimal string (serde_json's `Value` cannot hold
+/// integers above u64::MAX, and replay files go through `Value`).
+#[derive(Clone, Copy, Debug, PartialEq, Eq, PartialOrd, Ord)]
+pub struct N(pub u128);
+
+impl Serialize for N {
+    fn serialize<S: Serializer>(&self, s: S) -> Result<S::Ok, S::Error> {
+        s.serialize_str(&self.0.to_string())
+    }
+}
+impl<'de> Deserialize<'de> for N {
+    fn deserialize<D: Deserializer<'de>>(d: D) -> Result<Self, D::Error> {
+        let s = String::deserialize(d)?;
+        s.parse::<u128>().map(N).map_err(serde::de::Error::custom)
+    }
+}
+
+#[derive(Clone, Debug, Serialize, Deserialize, PartialEq)]
+pub enum Period {
+    Height(u64),
+    Time(u64),
+}
+
+#[derive(Clone, Debug, Serialize, Deserialize, PartialEq)]
+pub enum MinBond {
+    Abs(N),
+    /// k * tokens_per_weight + d (saturating)
+    TpwTimes(u16, i8),
+}
+
+#[derive(Clone, Debug, Serialize, Deserialize, PartialEq)]
+pub struct Cfg {
+    /// stake token is a cw20-base instance (else the native denom `ustake`)
+    pub cw20: bool,
+    pub tpw: N,
+    pub min_bond: MinBond,
+    pub period: Period,
+    /// stake-token balance of each user at the start (cw20: clamped so that the sum fits u128)
+    pub funds: Vec<N>,
+}
+
+#[derive(Clone, Debug, Serialize, Deserialize, PartialEq)]
+pub enum Amt {
+    Abs(N),
+    /// the actor's stake-token balance + d
+    Bal(i8),
+    /// (k+1)/256 of the actor's stake-token balance
+    FracBal(u8),
+    /// the actor's current stake + d
+    Stake(i8),
+    /// (k+1)/256 of the actor's current stake
+    FracStake(u8),
+    /// k * tokens_per_weight + d
+    TpwMul(u16, i8),
+    /// the amount that moves the actor's stake to min_bond + d (0 if that is the wrong direction)
+    ToMinBond(i8),
+    /// Bond only: the amount that moves the actor's stake to 2^64 * tokens_per_weight + d,
+    /// the edge of the u64 weight range (0 if not representable)
+    ToQuot64(i8),
+}
+
+#[derive(Clone, Copy, Debug, Serialize, Deserialize, PartialEq)]
+pub enum Foreign {
+    /// native config: Bond with the other native denom. cw20 config: falls back to WrongKind
+    WrongDenom,
+    /// native config: Bond with two coins (stake denom + other denom)
+    TwoCoins,
+    /// a second cw20-base instance sends `Receive{Bond}` to the staking contract
+    OtherCw20,
+    /// cw20 config: Bond with native funds; native config: a cw20 `Send{Bond}`
+    WrongKind,
+    /// the user calls `Receive{sender: victim, amount, Bond}` itself, posing as a cw20 contract
+    FakeReceive,
+}
+
+/// the acting user, explicit or chosen by the state at run time (monotone map of the
+/// selector onto the users that qualify; falls back to the selector over all users)
+#[derive(Clone, Copy, Debug, Serialize, Deserialize, PartialEq)]
+pub enum Who {
+    User(u8),
+    /// a user holding stake tokens
+    WithFunds(u16),
+    /// a user with a non-zero stake
+    WithStake(u16),
+    /// a user with at least one listed claim (immature ones preferred)
+    WithClaims(u16),
+}
+
+#[derive(Clone, Debug, Serialize, Deserialize, PartialEq)]
+pub enum Op {
+    Bond { by: Who, amt: Amt },
+    Unbond { by: Who, amt: Amt },
+    Claim { by: Who },
+    Advance { blocks: u16, secs: u32 },
+    /// move the chain to (release of the user's earliest immature claim) + d (blocks or seconds)
+    AdvanceToRelease { by: Who, d: i8 },
+    Foreign { by: u8, kind: Foreign, amt: N, victim: u8 },
+    /// plain token transfer to the staking contract (not a bond)
+    Donate { by: u8, amt: Amt },
+}
+
+#[derive(Clone, Debug, Serialize, Deserialize, PartialEq)]
+pub struct Case {
+    pub cfg: Cfg,
+    pub ops: Vec<Op>,
+}
+
+// ---------------------------------------------------------------- strategies
+
+fn user() -> impl Strategy<Value = u8> {
+    0u8..N_USERS as u8
+}
+
+fn tpw_strategy() -> BoxedStrategy<u128> {
+    prop_oneof![
+        35 => Just(1u128),
+        15 => 2u128..=10,
+        14 => Just(1000u128),
+        10 => 11u128..100_000,
+        8 => Just(1u128 << 64),
+        3 => Just(u64::MAX as u128),
+        5 => edge_u128(),
+        2 => Just(0u128),
+        4 => any::<u128>(),
+    ]
+    .boxed()
+}
+
+fn min_bond_strategy() -> BoxedStrategy<MinBond> {
+    prop_oneof![
+        20 => Just(MinBond::Abs(N(0))),
+        12 => Just(MinBond::Abs(N(1))),
+        28 => (2u128..5000).prop_map(|x| MinBond::Abs(N(x))),
+        25 => (1u16..6, -1i8..=1).prop_map(|(k, d)| MinBond::TpwTimes(k, d)),
+        5 => edge_u128().prop_map(|x| MinBond::Abs(N(x))),
+    ]
+    .boxed()
+}
+
+fn period_strategy() -> BoxedStrategy<Period> {
+    prop_oneof![
+        6 => Just(Period::Height(0)),
+        6 => Just(Period::Time(0)),
+        30 => (1u64..6).prop_map(Period::Height),
+        30 => (1u64..60).prop_map(Period::Time),
+        8 => (6u64..200).prop_map(Period::Height),
+        8 => (60u64..100_000).prop_map(Period::Time),
+        1 => (0u64..3).prop_map(|k| Period::Height(u64::MAX - k)),
+        1 => (0u64..3).prop_map(|k| Period::Time(u64::MAX - k)),
+        1 => any::<u64>().prop_map(Period::Height),
+        1 => any::<u64>().prop_map(Period::Time),
+    ]
+    .boxed()
+}
+
+fn funds_strategy() -> BoxedStrategy<u128> {
+    prop_oneof![
+        3 => Just(0u128),
+        8 => 0u128..1000,
+        36 => 1000u128..1_000_000_000_000,
+        8 => Just(1u128 << 64),
+        14 => (1u128 << 64)..(1u128 << 70),
+        5 => (1u128 << 100)..(1u128 << 101),
+        16 => Just(MAX_FUNDS),
+        6 => any::<u128>().prop_map(|x| x >> 1),
+        4 => edge_u128().prop_map(|x| x.min(MAX_FUNDS)),
+    ]
+    .boxed()
+}
+
+fn bond_amt() -> BoxedStrategy<Amt> {
+    prop_oneof![
+        6 => mostly_small_u128().prop_map(|x| Amt::Abs(N(x))),
+        2 => edge_u128().prop_map(|x| Amt::Abs(N(x))),
+        5 => any::<u8>().prop_map(Amt::FracBal),
+        2 => (-1i8..=1).prop_map(Amt::Bal),
+        4 => (0u16..8, -1i8..=1).prop_map(|(k, d)| Amt::TpwMul(k, d)),
+        3 => (-1i8..=1).prop_map(Amt::ToMinBond),
+        2 => (-2i8..=1).prop_map(Amt::ToQuot64),
+    ]
+    .boxed()
+}
+
+fn unbond_amt() -> BoxedStrategy<Amt> {
+    prop_oneof![
+        7 => any::<u8>().prop_map(Amt::FracStake),
+        5 => (-1i8..=1).prop_map(Amt::Stake),
+        4 => mostly_small_u128().prop_map(|x| Amt::Abs(N(x))),
+        2 => (0u16..8, -1i8..=1).prop_map(|(k, d)| Amt::TpwMul(k, d)),
+        3 => (-1i8..=1).prop_map(Amt::ToMinBond),
+        1 => edge_u128().prop_map(|x| Amt::Abs(N(x))),
+    ]
+    .boxed()
+}
+
+fn donate_amt() -> BoxedStrategy<Amt> {
+    prop_oneof![
+        4 => (1u128..1000).prop_map(|x| Amt::Abs(N(x))),
+        2 => any::<u8>().prop_map(Amt::FracBal),
+        1 => edge_u128().prop_map(|x| Amt::Abs(N(x))),
+    ]
+    .boxed()
+}
+
+fn foreign_kind() -> impl Strategy<Value = Foreign> {
+    prop_oneof![
+        Just(Foreign::WrongDenom),
+        Just(Foreign::TwoCoins),
+        Just(Foreign::OtherCw20),
+        Just(Foreign::WrongKind),
+        Just(Foreign::FakeReceive),
+    ]
+}
+
+fn who(f: fn(u16) -> Who) -> BoxedStrategy<Who> {
+    prop_oneof![3 => any::<u16>().prop_map(f), 1 => user().prop_map(Who::User)].boxed()
+}
+
+/// one "op group": usually a single op; the exit arm emits a whole
+/// bond / partial unbond / early claim / advance to the release date -1,0,+1 / claim cycle
+fn op_group() -> BoxedStrategy<Vec<Op>> {
+    let one = |s: BoxedStrategy<Op>| s.prop_map(|o| vec![o]).boxed();
+    prop_oneof![
+        28 => one((who(Who::WithFunds), bond_amt()).prop_map(|(by, amt)| Op::Bond { by, amt }).boxed()),
+        20 => one((who(Who::WithStake), unbond_amt()).prop_map(|(by, amt)| Op::Unbond { by, amt }).boxed()),
+        16 => one(who(Who::WithClaims).prop_map(|by| Op::Claim { by }).boxed()),
+        10 => one((0u16..4, 0u32..40).prop_map(|(blocks, secs)| Op::Advance { blocks, secs }).boxed()),
+        1 => one((0u16..300, 0u32..200_000).prop_map(|(blocks, secs)| Op::Advance { blocks, secs }).boxed()),
+        8 => one((who(Who::WithClaims), -1i8..=1).prop_map(|(by, d)| Op::AdvanceToRelease { by, d }).boxed()),
+        10 => one((user(), foreign_kind(), prop_oneof![3 => 1u128..1000, 1 => edge_u128()], user())
+            .prop_map(|(by, kind, amt, victim)| Op::Foreign { by, kind, amt: N(amt), victim }).boxed()),
+        1 => one((user(), donate_amt()).prop_map(|(by, amt)| Op::Donate { by, amt }).boxed()),
+        4 => (user(), bond_amt(), 0u8..255, -1i8..=1, any::<bool>()).prop_map(|(u, amt, k, d, claim_first)| {
+            let by = Who::User(u);
+            let mut g = vec![Op::Bond { by, amt }, Op::Unbond { by, amt: Amt::FracStake(k) }];
+            if claim_first {
+                g.push(Op::Claim { by });
+            }
+            g.push(Op::AdvanceToRelease { by, d });
+            g.push(Op::Claim { by });
+            g
+        }).boxed(),
+    ]
+    .boxed()
+}
+
+pub fn case_strategy(_prop: &str, tier: Tier) -> BoxedStrategy<Case> {
+    let max_ops = match tier {
+        Tier::Quick => 40usize,
+        Tier::Thorough => 100usize,
+    };
+    let cfg = (
+        any::<bool>(),
+        tpw_strategy(),
+        min_bond_strategy(),
+        period_strategy(),
+        proptest::collection::vec(funds_strategy().prop_map(N), N_USERS),
+    )
+        .prop_map(|(cw20, tpw, min_bond, period, funds)| Cfg { cw20, tpw: N(tpw), min_bond, period, funds });
+    let ops = proptest::collection::vec(op_group(), 0..=max_ops).prop_map(|g| g.into_iter().flatten().collect::<Vec<_>>());
+    (cfg, ops).prop_map(|(cfg, ops)| Case { cfg, ops }).boxed()
+}
+
+// ---------------------------------------------------------------- world
+
+fn no_wrap() -> bool {
+    static F: OnceLock<bool> = OnceLock::new();
+    *F.get_or_init(|| std::env::var("VERIF_C10_NO_WRAP").map(|v| v == "1").unwrap_or(false))
+}
+
+fn v(sig: &str, msg: String) -> Violation {
+    Violation::new("C10", &format!("C10/{sig}"), msg)
+}
+
+fn panic_text(p: Box<dyn std::any::Any + Send>) -> String {
+    vcore::direct::panic_text(p)
+}
+
+fn stake_code() -> Box<dyn Contract<Empty>> {
+    Box::new(ContractWrapper::new(cw4_stake::contract::execute, cw4_stake::contract::instantiate, cw4_stake::contract::query))
+}
+fn cw20_code() -> Box<dyn Contract<Empty>> {
+    Box::new(ContractWrapper::new(cw20_base::contract::execute, cw20_base::contract::instantiate, cw20_base::contract::query))
+}
+
+/// release date of a claim as an ordered key: (kind, value)
+type ExpKey = (u8, u64);
+
+fn exp_key(e: &Expiration) -> ExpKey {
+    match e {
+        Expiration::AtHeight(h) => (0, *h),
+        Expiration::AtTime(t) => (1, t.nanos()),
+        Expiration::Never {} => (2, 0),
+    }
+}
+
+/// cw-utils' documented semantics: AtHeight(h) is expired when block.height >= h,
+/// AtTime(t) when block.time >= t, Never never.
+fn key_expired(k: &ExpKey, b: &BlockInfo) -> bool {
+    match k.0 {
+        0 => b.height >= k.1,
+        1 => b.time.nanos() >= k.1,
+        _ => false,
+    }
+}
+
+/// "the unbonding period after the unbond", computed without wrap-around
+#[derive(Clone, Copy, Debug, PartialEq)]
+enum Earliest {
+    Height(u128),
+    Nanos(u128),
+}
+
+impl Earliest {
+    fn of(period: &Period, b: &BlockInfo) -> Earliest {
+        match period {
+            Period::Height(k) => Earliest::Height(b.height as u128 + *k as u128),
+            Period::Time(k) => Earliest::Nanos(b.time.nanos() as u128 + *k as u128 * 1_000_000_000),
+        }
+    }
+    fn reached(&self, b: &BlockInfo) -> bool {
+        match self {
+            Earliest::Height(h) => b.height as u128 >= *h,
+            Earliest::Nanos(n) => b.time.nanos() as u128 >= *n,
+        }
+    }
+    fn later(a: Earliest, b: Earliest) -> Earliest {
+        match (a, b) {
+            (Earliest::Height(x), Earliest::Height(y)) => Earliest::Height(x.max(y)),
+            (Earliest::Nanos(x), Earliest::Nanos(y)) => Earliest::Nanos(x.max(y)),
+            (a, _) => a, // the period kind is fixed per case
+        }
+    }
+}
+
+#[derive(Clone, Debug, PartialEq)]
+struct Obs {
+    /// Staked{..} of every watched address (users first, then the token contracts)
+    stake: Vec<u128>,
+    /// Member{..} of every watched address
+    member: Vec<Option<u64>>,
+    /// Claims{..} of every user
+    claims: Vec<Vec<(u128, Expiration)>>,
+    /// stake-token balance of every user
+    bal: Vec<u128>,
+    /// stake-token balance of the staking contract
+    cbal: u128,
+    /// balances in the tokens that are not the stake token (users.., contract), only
+    /// compared before/after failed calls and advances
+    side: Vec<u128>,
+    total: u64,
+    listed: Vec<(String, u64)>,
+}
+
+struct World {
+    app: App,
+    users: Vec<Addr>,
+    /// watched addresses: users, then token contracts
+    watched: Vec<Addr>,
+    stake: Addr,
+    /// the configured cw20 stake token (cw20 arm)
+    main20: Option<Addr>,
+    /// the foreign cw20
+    other20: Addr,
+    tpw: u128,
+    min_bond: u128,
+    period: Period,
+}
+
+fn root_msg(e: &anyhow::Error) -> String {
+    e.root_cause().to_string()
+}
+
+impl World {
+    fn exec<T: Serialize + std::fmt::Debug>(&mut self, sender: &Addr, contract: &Addr, msg: &T, funds: &[Coin]) -> Result<(), String> {
+        let app = &mut self.app;
+        match catch_unwind(AssertUnwindSafe(|| app.execute_contract(sender.clone(), contract.clone(), msg, funds))) {
+            Ok(Ok(_)) => Ok(()),
+            Ok(Err(e)) => Err(root_msg(&e)),
+            Err(p) => Err(format!("panic: {}", panic_text(p))),
+        }
+    }
+
+    fn bank_send(&mut self, sender: &Addr, to: &Addr, funds: &[Coin]) -> Result<(), String> {
+        let app = &mut self.app;
+        match catch_unwind(AssertUnwindSafe(|| app.send_tokens(sender.clone(), to.clone(), funds))) {
+            Ok(Ok(_)) => Ok(()),
+            Ok(Err(e)) => Err(root_msg(&e)),
+            Err(p) => Err(format!("panic: {}", panic_text(p))),
+        }
+    }
+
+    fn q<T: serde::de::DeserializeOwned>(&self, contract: &Addr, msg: &impl Serialize) -> Result<T, String> {
+        self.app.wrap().query_wasm_smart(contract, msg).map_err(|e| e.to_string())
+    }
+
+    fn token_balance(&self, of: &Addr) -> Result<u128, String> {
+        match &self.main20 {
+            Some(t) => self.cw20_balance(t, of),
+            None => self.native_balance(of, DENOM),
+        }
+    }
+    fn cw20_balance(&self, token: &Addr, of: &Addr) -> Result<u128, String> {
+        Ok(self.q::<BalanceResponse>(token, &Cw20QueryMsg::Balance { address: of.to_string() })?.balance.u128())
+    }
+    fn native_balance(&self, of: &Addr, denom: &str) -> Result<u128, String> {
+        Ok(self.app.wrap().query_balance(of, denom).map_err(|e| e.to_string())?.amount.u128())
+    }
+
+    fn list_members(&self) -> Result<Vec<(String, u64)>, String> {
+        let mut out: Vec<(String, u64)> = vec![];
+        let mut cursor: Option<String> = None;
+        loop {
+            let page = self.q::<MemberListResponse>(&self.stake, &QueryMsg::ListMembers { start_after: cursor.clone(), limit: Some(30) })?.members;
+            if page.is_empty() {
+                return Ok(out);
+            }
+            cursor = page.last().map(|m| m.addr.clone());
+            out.extend(page.into_iter().map(|m| (m.addr, m.weight)));
+            if out.len() > 1000 {
+                return Err("ListMembers does not terminate".into());
+            }
+        }
+    }
+
+    fn observe_inner(&self) -> Result<Obs, String> {
+        let mut stake = vec![];
+        let mut member = vec![];
+        for a in &self.watched {
+            stake.push(self.q::<StakedResponse>(&self.stake, &QueryMsg::Staked { address: a.to_string() })?.stake.u128());
+            member.push(self.q::<MemberResponse>(&self.stake, &QueryMsg::Member { addr: a.to_string(), at_height: None })?.weight);
+        }
+        let mut claims = vec![];
+        let mut bal = vec![];
+        let mut side = vec![];
+        for u in &self.users {
+            let c = self.q::<ClaimsResponse>(&self.stake, &QueryMsg::Claims { address: u.to_string() })?.claims;
+            claims.push(c.into_iter().map(|c| (c.amount.u128(), c.release_at)).collect());
+            bal.push(self.token_balance(u)?);
+            side.push(self.native_balance(u, OTHER_DENOM)?);
+            side.push(self.cw20_balance(&self.other20, u)?);
+            if self.main20.is_some() {
+                side.push(self.native_balance(u, DENOM)?);
+            }
+        }
+        side.push(self.native_balance(&self.stake, OTHER_DENOM)?);
+        side.push(self.cw20_balance(&self.other20, &self.stake)?);
+        if self.main20.is_some() {
+            side.push(self.native_balance(&self.stake, DENOM)?);
+        }
+        let cbal = self.token_balance(&self.stake)?;
+        let total = self.q::<TotalWeightResponse>(&self.stake, &QueryMsg::TotalWeight {})?.weight;
+        let listed = self.list_members()?;
+        Ok(Obs { stake, member, claims, bal, cbal, side, total, listed })
+    }
+
+    fn observe(&self) -> Result<Obs, Violation> {
+        match catch_unwind(AssertUnwindSafe(|| self.observe_inner())) {
+            Ok(Ok(o)) => Ok(o),
+            Ok(Err(e)) => Err(v("query-failed", format!("a query failed: {e}"))),
+            Err(p) => Err(v("query-failed", format!("a query panicked: {}", panic_text(p)))),
+        }
+    }
+
+    fn name(&self, i: usize) -> String {
+        if i < self.users.len() {
+            format!("user{i}")
+        } else {
+            format!("token-contract{}", i - self.users.len())
+        }
+    }
+}
+
+fn resolve_who(wh: &Who, o: &Obs, b: &BlockInfo) -> usize {
+    let n = N_USERS;
+    let choose = |ix: u16, ok: Vec<usize>| -> usize {
+        if ok.is_empty() {
+            vcore::amounts::pick(ix, n)
+        } else {
+            ok[vcore::amounts::pick(ix, ok.len())]
+        }
+    };
+    match wh {
+        Who::User(u) => *u as usize % n,
+        Who::WithFunds(ix) => choose(*ix, (0..n).filter(|i| o.bal[*i] > 0).collect()),
+        Who::WithStake(ix) => choose(*ix, (0..n).filter(|i| o.stake[*i] > 0).collect()),
+        Who::WithClaims(ix) => {
+            let immature: Vec<usize> = (0..n).filter(|i| o.claims[*i].iter().any(|(a, e)| *a > 0 && !key_expired(&exp_key(e), b))).collect();
+            if !immature.is_empty() && ix % 4 != 0 {
+                choose(*ix, immature)
+            } else {
+                choose(*ix, (0..n).filter(|i| !o.claims[*i].is_empty()).collect())
+            }
+        }
+    }
+}
+
+fn resolve_min_bond(m: &MinBond, tpw: u128) -> u128 {
+    match m {
+        MinBond::Abs(x) => x.0,
+        MinBond::TpwTimes(k, d) => shift(tpw.saturating_mul(*k as u128), *d),
+    }
+}
+
+fn shift(base: u128, d: i8) -> u128 {
+    if d >= 0 {
+        base.saturating_add(d as u128)
+    } else {
+        base.saturating_sub((-(d as i16)) as u128)
+    }
+}
+
+fn frac(x: u128, k: u8) -> u128 {
+    let r = Uint256::from(x) * Uint256::from(k as u128 + 1) / Uint256::from(256u128);
+    Uint128::try_from(r).map(|u| u.u128()).unwrap_or(x)
+}
+
+/// `up`: the amount is added to the stake (Bond) / removed from it (Unbond)
+fn resolve_amt(a: &Amt, w: &World, o: &Obs, u: usize, up: bool) -> u128 {
+    let (bal, stake) = (o.bal[u], o.stake[u]);
+    match a {
+        Amt::Abs(x) => x.0,
+        Amt::Bal(d) => shift(bal, *d),
+        Amt::FracBal(k) => frac(bal, *k),
+        Amt::Stake(d) => shift(stake, *d),
+        Amt::FracStake(k) => frac(stake, *k),
+        Amt::TpwMul(k, d) => shift(w.tpw.saturating_mul(*k as u128), *d),
+        Amt::ToMinBond(d) => {
+            let target = shift(w.min_bond, *d);
+            if up {
+                target.saturating_sub(stake)
+            } else {
+                stake.saturating_sub(target)
+            }
+        }
+        Amt::ToQuot64(d) => match w.tpw.checked_mul(1u128 << 64) {
+            Some(edge) if up => shift(edge, *d).saturating_sub(stake),
+            _ => 0,
+        },
+    }
+}
+
+fn build_world(cfg: &Cfg, ctx: &mut CaseCtx) -> Result<Option<World>, Violation> {
+    let mut app = App::default();
+    let users: Vec<Addr> = (0..N_USERS).map(|i| app.api().addr_make(&format!("user{i}"))).collect();
+    let owner = app.api().addr_make("owner");
+    let tpw = cfg.tpw.0;
+    let min_bond = resolve_min_bond(&cfg.min_bond, tpw);
+
+    // stake-token funds; the cw20 arm needs the total supply to fit u128
+    let mut funds: Vec<u128> = (0..N_USERS).map(|i| cfg.funds.get(i).map(|n| n.0).unwrap_or(0).min(MAX_FUNDS)).collect();
+    if cfg.cw20 {
+        let mut room = u128::MAX;
+        for f in funds.iter_mut() {
+            *f = (*f).min(room);
+            room -= *f;
+        }
+    }
+
+    {
+        let users = users.clone();
+        let funds = funds.clone();
+        let cw20 = cfg.cw20;
+        app.init_modules(|router, _, storage| {
+            for (u, f) in users.iter().zip(funds.iter()) {
+                let mut coins = vec![coin(SIDE_FUNDS, OTHER_DENOM)];
+                let native = if cw20 { SIDE_FUNDS } else { *f };
+                if native > 0 {
+                    coins.push(coin(native, DENOM));
+                }
+                router.bank.init_balance(storage, u, coins).expect("init_balance");
+            }
+        });
+    }
+
+    let cw20_id = app.store_code(cw20_code());
+    let stake_id = app.store_code(stake_code());
+    let mk20 = |app: &mut App, label: &str, bals: Vec<u128>| -> Addr {
+        let msg = cw20_base::msg::InstantiateMsg {
+            name: format!("Token {label}"),
+            symbol: "TOK".into(),
+            decimals: 6,
+            initial_balances: users.iter().zip(bals.iter()).filter(|(_, b)| **b > 0).map(|(u, b)| Cw20Coin { address: u.to_string(), amount: Uint128::new(*b) }).collect(),
+            mint: None,
+            marketing: None,
+        };
+        app.instantiate_contract(cw20_id, owner.clone(), &msg, &[], label, None).expect("cw20-base instantiate with valid data")
+    };
+    let other20 = mk20(&mut app, "other", vec![SIDE_FUNDS; N_USERS]);
+    let main20 = if cfg.cw20 { Some(mk20(&mut app, "main", funds.clone())) } else { None };
+
+    let denom = match &main20 {
+        Some(a) => Denom::Cw20(a.clone()),
+        None => Denom::Native(DENOM.to_string()),
+    };
+    let msg = InstantiateMsg {
+        denom,
+        tokens_per_weight: Uint128::new(tpw),
+        min_bond: Uint128::new(min_bond),
+        unbonding_period: match cfg.period {
+            Period::Height(k) => Duration::Height(k),
+            Period::Time(k) => Duration::Time(k),
+        },
+        admin: None,
+    };
+    let r = {
+        let app = &mut app;
+        catch_unwind(AssertUnwindSafe(|| app.instantiate_contract(stake_id, owner.clone(), &msg, &[], "stake", None)))
+    };
+    let stake = match r {
+        Ok(Ok(a)) => a,
+        _ => {
+            // nothing in the property obliges a configuration to be accepted
+            ctx.count("init_rejected");
+            return Ok(None);
+        }
+    };
+    ctx.count("init_accepted");
+    let mut watched = users.clone();
+    watched.push(other20.clone());
+    if let Some(m) = &main20 {
+        watched.push(m.clone());
+    }
+    Ok(Some(World { app, users, watched, stake, main20, other20, tpw, min_bond, period: cfg.period.clone() }))
+}
+
+/// claims of one user grouped by release date (zero totals dropped): the ledger is
+/// compared at this granularity so that neither the order of the list nor a merge of
+/// equal-dated claims matters
+fn by_release(list: &[(u128, Expiration)]) -> BTreeMap<ExpKey, Uint256> {
+    let mut m: BTreeMap<ExpKey, Uint256> = BTreeMap::new();
+    for (a, e) in list {
+        *m.entry(exp_key(e)).or_insert(Uint256::zero()) += Uint256::from(*a);
+    }
+    m.retain(|_, s| !s.is_zero());
+    m
+}
+
+#[derive(Clone, Copy, Debug, PartialEq)]
+enum Kind {
+    Bond,
+    Unbond,
+    Claim,
+    Foreign,
+    Donate,
+}
+
+/// State invariants, evaluated after instantiation and after every step.
+fn check_state(w: &World, o: &Obs, donated: bool, at: &str, ctx: &mut CaseCtx) -> Result<(), Violation> {
+    // ---- backing
+    let mut books = Uint256::zero();
+    for s in &o.stake {
+        books += Uint256::from(*s);
+    }
+    for l in &o.claims {
+        for (a, _) in l {
+            books += Uint256::from(*a);
+        }
+    }
+    let held = Uint256::from(o.cbal);
+    if held < books {
+        return Err(v("underbacked", format!("{at}: the contract holds {held} of the stake token but records stakes + unreleased claims of {books}")));
+    }
+    if !donated && held != books {
+        return Err(v("backing-ne-books", format!("{at}: the contract was funded only by bonding, holds {held}, but stakes + unreleased claims sum to {books}")));
+    }
+
+    // ---- membership and weight
+    let eff_min = w.min_bond.max(1);
+    let mut member_sum: u128 = 0;
+    for (i, a) in w.watched.iter().enumerate() {
+        let s = o.stake[i];
+        let m = o.member[i];
+        let ambiguous = w.min_bond == 0 && s == 0; // "at least the minimum bond" with both zero: either answer accepted
+        if ambiguous {
+            ctx.count(if m.is_some() { "zero_stake_zero_minbond_member" } else { "zero_stake_zero_minbond_nonmember" });
+        } else if m.is_some() != (s >= eff_min) {
+            return Err(v("member-iff-min-bond", format!("{at}: {} has stake {s}, minimum bond {}, but Member reports {:?}", w.name(i), w.min_bond, m)));
+        }
+        if let Some(wt) = m {
+            member_sum += wt as u128;
+            if w.tpw == 0 {
+                return Err(v("weight-with-zero-tpw", format!("{at}: {} is reported with weight {wt} although tokens_per_weight is 0 (no quotient exists)", w.name(i))));
+            }
+            let q = s / w.tpw;
+            if q >= 1u128 << 63 {
+                ctx.flag("quot_ge_2_63");
+            }
+            if wt as u128 != q {
+                if ctx.tolerate("C10/weight-ne-quotient") {
+                    ctx.flag("tolerated_weight_ne_quotient");
+                } else {
+                    return Err(v("weight-ne-quotient", format!("{at}: {} has stake {s}, tokens_per_weight {}, true quotient {q}, but Member reports weight {wt}", w.name(i), w.tpw)));
+                }
+            }
+        }
+        // the member list tells the same story as the point query
+        let in_list = o.listed.iter().find(|(x, _)| x == a.as_str()).map(|(_, wt)| *wt);
+        if in_list != m {
+            return Err(v("member-list-disagrees", format!("{at}: {}: Member reports {:?}, ListMembers {:?}", w.name(i), m, in_list)));
+        }
+    }
+    if o.listed.len() != o.member.iter().filter(|m| m.is_some()).count() {
+        return Err(v("member-iff-min-bond", format!("{at}: ListMembers reports members that never bonded: {:?}", o.listed)));
+    }
+    if member_sum != o.total as u128 {
+        return Err(v("total-ne-member-sum", format!("{at}: TotalWeight {} but member weights sum to {member_sum}", o.total)));
+    }
+    Ok(())
+}
+
+pub fn run_case(prop: &str, case: &Case, ctx: &mut CaseCtx) -> Result<(), Violation> {
+    if prop != "C10" {
+        return Err(Violation::new(prop, "unknown-property", "family stake serves C10 only"));
+    }
+    let Some(mut w) = build_world(&case.cfg, ctx)? else {
+        return Ok(());
+    };
+    let n = N_USERS;
+    let mut pre = w.observe()?;
+    if pre.stake.iter().any(|s| *s != 0) || pre.claims.iter().any(|c| !c.is_empty()) {
+        return Err(v("stake-delta", "a fresh contract reports stakes or claims".to_string()));
+    }
+    let mut donated = false;
+    check_state(&w, &pre, donated, "after instantiate", ctx)?;
+
+    // ledger of unreleased claims: per user, release key -> (sum, earliest permitted payout)
+    let mut ledger: Vec<BTreeMap<ExpKey, (Uint256, Earliest)>> = vec![BTreeMap::new(); n];
+    // non-triviality class A, per user: 0 -> partial unbond -> 1 -> claim attempt while immature -> 2 -> paid claim -> 3
+    let mut phase = vec![0u8; n];
+    let mut bonded_once = false;
+
+    for (step_no, op) in case.ops.iter().enumerate() {
+        let block = w.app.block_info();
+        // ------------------------------------------------ time
+        let adv: Option<(u64, u64)> = match op {
+            Op::Advance { blocks, secs } => Some((*blocks as u64, *secs as u64 * 1_000_000_000)),
+            Op::AdvanceToRelease { by, d } => {
+                let u = resolve_who(by, &pre, &block);
+                let next = by_release(&pre.claims[u]).keys().find(|k| k.0 < 2 && !key_expired(k, &block)).cloned();
+                match next {
+                    None => {
+                        ctx.count("advance_to_release_nothing_pending");
+                        None
+                    }
+                    Some((0, h)) => {
+                        let target = if *d >= 0 { h.saturating_add(*d as u64) } else { h.saturating_sub(d.unsigned_abs() as u64) };
+                        let blocks = target.saturating_sub(block.height);
+                        if blocks > 1_000_000 {
+                            ctx.count("advance_to_release_too_far");
+                            None
+                        } else {
+                            ctx.count("advance_to_release");
+                            Some((blocks, blocks * 5_000_000_000))
+                        }
+                    }
+                    Some((_, t)) => {
+                        let target = if *d >= 0 { t.saturating_add(*d as u64 * 1_000_000_000) } else { t.saturating_sub(d.unsigned_abs() as u64 * 1_000_000_000) };
+                        let nanos = target.saturating_sub(block.time.nanos());
+                        if nanos > 1_000_000_000_000_000 {
+                            ctx.count("advance_to_release_too_far");
+                            None
+                        } else {
+                            ctx.count("advance_to_release");
+                            Some((1, nanos))
+                        }
+                    }
+                }
+            }
+            _ => None,
+        };
+        if matches!(op, Op::Advance { .. } | Op::AdvanceToRelease { .. }) {
+            if let Some((blocks, nanos)) = adv {
+                w.app.update_block(|b| {
+                    b.height = b.height.saturating_add(blocks);
+                    b.time = cosmwasm_std::Timestamp::from_nanos(b.time.nanos().saturating_add(nanos));
+                });
+                let post = w.observe()?;
+                if post != pre {
+                    return Err(v("advance-changed-state", format!("step {step_no}: the passage of time alone changed queried state")));
+                }
+            }
+            continue;
+        }
+
+        // ------------------------------------------------ a call
+        let (kind, u, amount, res): (Kind, usize, u128, Result<(), String>) = match op {
+            Op::Bond { by, amt } => {
+                let u = resolve_who(by, &pre, &block);
+                let mut a = resolve_amt(amt, &w, &pre, u, true);
+                if no_wrap() && w.tpw > 0 {
+                    if let Some(edge) = w.tpw.checked_mul(1u128 << 64) {
+                        a = a.min((edge - 1).saturating_sub(pre.stake[u]));
+                    }
+                }
+                let user = w.users[u].clone();
+                let stake = w.stake.clone();
+                let r = match w.main20.clone() {
+                    Some(tok) => {
+                        let msg = Cw20ExecuteMsg::Send { contract: stake.to_string(), amount: Uint128::new(a), msg: to_json_binary(&ReceiveMsg::Bond {}).unwrap() };
+                        w.exec(&user, &tok, &msg, &[])
+                    }
+                    None => {
+                        // a zero coin cannot be sent on a chain: a zero bond is a Bond without funds
+                        let funds = if a == 0 { vec![] } else { vec![coin(a, DENOM)] };
+                        w.exec(&user, &stake, &ExecuteMsg::Bond {}, &funds)
+                    }
+                };
+                (Kind::Bond, u, a, r)
+            }
+            Op::Unbond { by, amt } => {
+                let u = resolve_who(by, &pre, &block);
+                let a = resolve_amt(amt, &w, &pre, u, false);
+                let (user, stake) = (w.users[u].clone(), w.stake.clone());
+                let r = w.exec(&user, &stake, &ExecuteMsg::Unbond { tokens: Uint128::new(a) }, &[]);
+                (Kind::Unbond, u, a, r)
+            }
+            Op::Claim { by } => {
+                let u = resolve_who(by, &pre, &block);
+                let (user, stake) = (w.users[u].clone(), w.stake.clone());
+                let r = w.exec(&user, &stake, &ExecuteMsg::Claim {}, &[]);
+                (Kind::Claim, u, 0, r)
+            }
+            Op::Donate { by, amt } => {
+                let u = *by as usize % n;
+                let a = resolve_amt(amt, &w, &pre, u, true);
+                let (user, stake) = (w.users[u].clone(), w.stake.clone());
+                let r = match w.main20.clone() {
+                    Some(tok) => w.exec(&user, &tok, &Cw20ExecuteMsg::Transfer { recipient: stake.to_string(), amount: Uint128::new(a) }, &[]),
+                    None => w.bank_send(&user, &stake, &[coin(a, DENOM)]),
+                };
+                (Kind::Donate, u, a, r)
+            }
+            Op::Foreign { by, kind, amt, victim } => {
+                let u = *by as usize % n;
+                let a = 1 + amt.0 % SIDE_FUNDS; // always affordable: side balances never move
+                let (user, stake, other20) = (w.users[u].clone(), w.stake.clone(), w.other20.clone());
+                let bond_payload = to_json_binary(&ReceiveMsg::Bond {}).unwrap();
+                let native_cfg = w.main20.is_none();
+                let eff = match kind {
+                    Foreign::WrongDenom if !native_cfg => Foreign::WrongKind,
+                    Foreign::TwoCoins if !native_cfg => Foreign::WrongKind,
+                    Foreign::TwoCoins if pre.bal[u] == 0 => Foreign::WrongDenom,
+                    k => *k,
+                };
+                ctx.count(&format!("foreign_{:?}", eff));
+                let r = match eff {
+                    Foreign::WrongDenom => w.exec(&user, &stake, &ExecuteMsg::Bond {}, &[coin(a, OTHER_DENOM)]),
+                    Foreign::TwoCoins => w.exec(&user, &stake, &ExecuteMsg::Bond {}, &[coin(a.min(pre.bal[u]), DENOM), coin(a, OTHER_DENOM)]),
+                    Foreign::OtherCw20 => w.exec(&user, &other20, &Cw20ExecuteMsg::Send { contract: stake.to_string(), amount: Uint128::new(a), msg: bond_payload }, &[]),
+                    Foreign::WrongKind => {
+                        if native_cfg {
+                            w.exec(&user, &other20, &Cw20ExecuteMsg::Send { contract: stake.to_string(), amount: Uint128::new(a), msg: bond_payload }, &[])
+                        } else {
+                            w.exec(&user, &stake, &ExecuteMsg::Bond {}, &[coin(a, DENOM)])
+                        }
+                    }
+                    Foreign::FakeReceive => {
+                        let vic = w.users[*victim as usize % n].to_string();
+                        let big = if amt.0 == 0 { 1 } else { amt.0 };
+                        w.exec(&user, &stake, &ExecuteMsg::Receive(Cw20ReceiveMsg { sender: vic, amount: Uint128::new(big), msg: bond_payload }), &[])
+                    }
+                };
+                (Kind::Foreign, u, a, r)
+            }
+            Op::Advance { .. } | Op::AdvanceToRelease { .. } => unreachable!(),
+        };
+        let ok = res.is_ok();
+        let post = w.observe()?;
+        ctx.count(&format!("op_{:?}_{}", kind, if ok { "ok" } else { "fail" }));
+        let at = format!(
+            "step {step_no} {:?} by user{u} amount={amount} at height {} time {}ns -> {}",
+            kind,
+            block.height,
+            block.time.nanos(),
+            match &res {
+                Ok(()) => "ok".to_string(),
+                Err(e) => format!("err({e})"),
+            }
+        );
+
+        // a failed call changes nothing (the App commits only on success)
+        if !ok && post != pre {
+            return Err(v("failed-call-changed-state", format!("{at}: state differs after a failed call (harness atomicity broken?)")));
+        }
+
+        // only the configured token is accepted
+        if kind == Kind::Foreign {
+            if ok {
+                return Err(v("foreign-token-accepted", format!("{at}: {:?} was accepted by a contract configured for {}", op, if w.main20.is_some() { "a cw20 token" } else { "the native denom ustake" })));
+            }
+            ctx.flag("foreign_rejected");
+            if bonded_once {
+                ctx.flag("foreign_rejected_live");
+            }
+        }
+
+        // a stake changes only by the owner's own bond (+amount) or unbond (-amount)
+        for i in 0..w.watched.len() {
+            let expect: Option<u128> = if ok && i == u && kind == Kind::Bond {
+                pre.stake[i].checked_add(amount)
+            } else if ok && i == u && kind == Kind::Unbond {
+                pre.stake[i].checked_sub(amount)
+            } else {
+                Some(pre.stake[i])
+            };
+            if expect != Some(post.stake[i]) {
+                return Err(v("stake-delta", format!("{at}: Staked of {} went {} -> {}, expected {:?}", w.name(i), pre.stake[i], post.stake[i], expect)));
+            }
+        }
+
+        // real token movements
+        let paid: Uint256 = if ok && kind == Kind::Claim {
+            by_release(&pre.claims[u]).iter().filter(|(k, _)| key_expired(k, &block)).fold(Uint256::zero(), |s, (_, a)| s + *a)
+        } else {
+            Uint256::zero()
+        };
+        let into_contract: u128 = if ok && matches!(kind, Kind::Bond | Kind::Donate) { amount } else { 0 };
+        for i in 0..n {
+            let mut e = Uint256::from(pre.bal[i]);
+            if i == u {
+                e += paid;
+                e = e.checked_sub(Uint256::from(into_contract)).unwrap_or(Uint256::MAX);
+            }
+            if e != Uint256::from(post.bal[i]) {
+                let sig = match kind {
+                    Kind::Claim if ok => "claim-payout",
+                    Kind::Bond if ok => "bond-funds-delta",
+                    _ => "balance-moved",
+                };
+                return Err(v(sig, format!("{at}: stake-token balance of user{i} went {} -> {}, expected {e}", pre.bal[i], post.bal[i])));
+            }
+        }
+        {
+            let e = (Uint256::from(pre.cbal) + Uint256::from(into_contract)).checked_sub(paid).unwrap_or(Uint256::MAX);
+            if e != Uint256::from(post.cbal) {
+                let sig = match kind {
+                    Kind::Claim if ok => "claim-payout",
+                    Kind::Bond if ok => "bond-funds-delta",
+                    _ => "balance-moved",
+                };
+                return Err(v(sig, format!("{at}: stake-token balance of the contract went {} -> {}, expected {e}", pre.cbal, post.cbal)));
+            }
+        }
+
+        // claims ledger
+        if ok && kind == Kind::Unbond {
+            let earliest = Earliest::of(&w.period, &block);
+            let before = by_release(&pre.claims[u]);
+            let after = by_release(&post.claims[u]);
+            let mut changed: Vec<(ExpKey, Uint256)> = vec![];
+            let mut lost = false;
+            for (k, s) in &after {
+                let b = before.get(k).cloned().unwrap_or(Uint256::zero());
+                if *s > b {
+                    changed.push((*k, *s - b));
+                } else if *s < b {
+                    lost = true;
+                }
+            }
+            if before.keys().any(|k| !after.contains_key(k)) {
+                lost = true;
+            }
+            let good = !lost && if amount == 0 { changed.is_empty() } else { changed.len() == 1 && changed[0].1 == Uint256::from(amount) };
+            if !good {
+                return Err(v("unbond-claim-entry", format!("{at}: Unbond must add exactly one claim of {amount}; claims went {:?} -> {:?}", pre.claims[u], post.claims[u])));
+            }
+            if let Some((k, add)) = changed.first() {
+                let e = ledger[u].entry(*k).or_insert((Uint256::zero(), earliest));
+                e.0 += *add;
+                e.1 = Earliest::later(e.1, earliest);
+                if key_expired(k, &block) {
+                    ctx.flag("claim_born_mature");
+                }
+            }
+            if amount > 0 && amount < pre.stake[u] {
+                ctx.flag("partial_unbond");
+                if phase[u] == 0 {
+                    phase[u] = 1;
+                }
+            }
+        }
+        if kind == Kind::Claim {
+            let pending_immature = ledger[u].keys().any(|k| !key_expired(k, &block));
+            let matured_sum = by_release(&pre.claims[u]).iter().filter(|(k, _)| key_expired(k, &block)).fold(Uint256::zero(), |s, (_, a)| s + *a);
+            if !matured_sum.is_zero() {
+                ctx.count(if ok { "claim_with_matured_ok" } else { "claim_with_matured_failed" });
+            } else {
+                ctx.count(if ok { "claim_nothing_matured_ok" } else { "claim_nothing_matured_fail" });
+            }
+            if ok {
+                // never earlier than the unbonding period after the unbond
+                let due: Vec<ExpKey> = ledger[u].keys().filter(|k| key_expired(k, &block)).cloned().collect();
+                for k in due {
+                    let (sum, earliest) = ledger[u].remove(&k).unwrap();
+                    if !earliest.reached(&block) {
+                        return Err(v("claim-paid-early", format!("{at}: paid {sum} whose unbonding period ends at {:?}; block is height {} time {}ns", earliest, block.height, block.time.nanos())));
+                    }
+                }
+                if !paid.is_zero() {
+                    ctx.flag("claim_paid");
+                    if phase[u] == 2 {
+                        phase[u] = 3;
+                    }
+                }
+            }
+            if pending_immature && phase[u] == 1 {
+                phase[u] = 2;
+                ctx.flag("claim_attempt_before_maturity");
+            }
+        }
+        // after every call the listed claims are exactly the unreleased part of the ledger
+        for i in 0..n {
+            let listed = by_release(&post.claims[i]);
+            let ours: BTreeMap<ExpKey, Uint256> = ledger[i].iter().map(|(k, (s, _))| (*k, *s)).collect();
+            if listed != ours {
+                let sig = if ok && kind == Kind::Claim && i == u { "claims-not-removed-exactly" } else { "claims-ne-ledger" };
+                return Err(v(sig, format!("{at}: Claims of user{i} are {:?}; ledger of unbonds not yet paid says {:?}", post.claims[i], ours)));
+            }
+        }
+
+        if ok && kind == Kind::Donate && amount > 0 {
+            donated = true;
+            ctx.flag("donated");
+        }
+        if ok && kind == Kind::Bond {
+            bonded_once = true;
+        }
+        check_state(&w, &post, donated, &at, ctx)?;
+        pre = post;
+    }
+
+    if phase.iter().any(|p| *p == 3) {
+        ctx.flag("unbond_claim_before_and_after");
+    }
+    ctx.nontrivial = ctx.has("unbond_claim_before_and_after") || ctx.has("quot_ge_2_63") || ctx.has("foreign_rejected_live");
+    Ok(())
+}
+
+// ---------------------------------------------------------------- family
+
+pub struct StakeFamily;
+
+const ASSUME: &[&str] = &[
+    "transactions are atomic: a failed or panicking call leaves no state (cw-multi-test commits only on success; panics are caught and treated as failed calls)",
+    "cw-multi-test 2.0.0 (bank, wasm routing, sub-message dispatch), cw20-base as token, cosmwasm-std, cw-storage-plus, cw-utils, cw-controllers are trusted as execution substrate",
+    "natively compiled contract code behaves as its wasm build (overflow checks on)",
+    "every address that ever holds a stake or a claim is one of the 3 users or one of the token contracts, all of which are observed",
+];
+
+impl Family for StakeFamily {
+    type Case = Case;
+    fn name(&self) -> &'static str {
+        "stake"
+    }
+    fn props(&self) -> Vec<PropSpec> {
+        vec![PropSpec {
+            id: "C10",
+            quick_cases: 2000,
+            thorough_cases: 6000,
+            floor: 150,
+            rule: "case = configuration (native or cw20-base stake token, tokens_per_weight in {1, small, 1000, 2^64, edge, 0 rarely}, min_bond absolute or k*tpw+-1, Height/Time unbonding period incl. 0 and near-u64::MAX, 3 users funded up to 2^127) + up to 40 (thorough 100) ops: Bond / Unbond with absolute and state-relative amounts (balance, stake, tpw multiples, min_bond +-1, 2^64*tpw +-1), Claim, Advance, AdvanceToRelease+-1, five kinds of foreign-token attempts, rare donation; executed on a cw-multi-test App with real bank / cw20 token movements; after every call Staked, Member, Claims, ListMembers, TotalWeight and real balances of all parties are compared with a ledger. Non-trivial: (a user makes a partial unbond, then attempts Claim while that claim is immature, then is paid by a later Claim) or (a member whose true quotient stake/tpw is >= 2^63) or (a foreign-token attempt rejected after at least one successful Bond); distinct = distinct canonical JSON of the case.",
+            assumptions: ASSUME,
+        }]
+    }
+    fn strategy(&self, prop: &str, tier: Tier) -> BoxedStrategy<Case> {
+        case_strategy(prop, tier)
+    }
+    fn run(&self, prop: &str, case: &Case, ctx: &mut CaseCtx) -> Result<(), Violation> {
+        run_case(prop, case, ctx)
+    }
+}
